@@ -12,11 +12,12 @@
 #include <limits>
 #include <vector>
 using namespace stir;
+static float g_preferred_scale = 0.F; // 0: automatic; > 0: preferred scale factor (scale_to_write_data)
 template <class OutT>
 static int run(const char* name, const std::vector<float>& in)
 {
   std::vector<OutT> out(in.size());
-  float scale = 0;
+  float scale = g_preferred_scale;
   convert_range(out.begin(), scale, in.begin(), in.end());
   for (size_t i = 0; i < in.size(); ++i)
     {
@@ -48,18 +49,22 @@ int main(int argc, char** argv)
   if (!strcmp(argv[2], "sweep"))
     {
       const float mags[] = { 1.F, 1000.F, 3.e38F, 1.e30F, 1.e-20F, 1.e-30F, 1.e-36F, 3.e-38F, 1.e-40F, 3.36e-42F, 1.e-44F };
-      for (float m : mags)
-        for (int neg = 0; neg < 2; ++neg)
-          {
-            std::vector<float> v = { neg ? -m * 0.7F : 0.F, m * 0.5F, m * 0.96F, m };
-            const int rc = dispatch(argv[1], v);
-            if (rc) return rc;
-          }
+      for (float pref : { 0.F, 1.F, 1.e-3F })
+        for (float m : mags)
+          for (int neg = 0; neg < 3; ++neg)
+            {
+              g_preferred_scale = pref;
+              // neg == 2: negative-dominant data (largest magnitude on the negative side)
+              std::vector<float> v = { neg == 2 ? -m : (neg ? -m * 0.7F : 0.F), m * (neg == 2 ? 0.001F : 0.5F), m * (neg == 2 ? 0.0015F : 0.96F), neg == 2 ? m * 0.002F : m };
+              const int rc = dispatch(argv[1], v);
+              if (rc) { std::printf("  (preferred scale factor %g)\n", pref); return rc; }
+            }
       std::printf("REPLAY ok\n");
       return 0;
     }
   if (argc < 5) return 2;
   std::vector<float> v = { (float)atof(argv[2]), (float)atof(argv[3]), (float)atof(argv[4]) };
+  if (argc > 5) g_preferred_scale = (float)atof(argv[5]);
   const int rc = dispatch(argv[1], v);
   if (!rc) std::printf("REPLAY ok\n");
   return rc;
